@@ -59,7 +59,7 @@ Lemma read_cigar_bytes c :
 Proof.
   induction c as [|op t IH]; intros H; [reflexivity|].
   cbn [forallb] in H. apply andb_true_iff in H. destruct H as [Hop Ht].
-  unfold wf_cigar_op in Hop. apply andb_true_iff in Hop. destruct Hop as [Hop _].
+  unfold wf_cigar_op in Hop.
   apply andb_true_iff in Hop. destruct Hop as [H0 H1]. apply Z.leb_le in H0. apply Z.ltb_lt in H1.
   unfold cig_bytes. cbn [flat_map length read_cigar_ops]. fold (cig_bytes t).
   rewrite firstn_app_len by (rewrite le_put_length; reflexivity).
@@ -78,13 +78,14 @@ Lemma rec_end_loop_ok c : forallb wf_cigar_op c = true -> forall p e, exists v, 
 Proof.
   induction c as [|op t IH]; intros H p e; [eexists; reflexivity|].
   cbn [forallb] in H. apply andb_true_iff in H. destruct H as [Hop Ht].
-  unfold wf_cigar_op in Hop. apply andb_true_iff in Hop. destruct Hop as [Hop Hty].
-  apply andb_true_iff in Hop. destruct Hop as [H0 H1]. apply Z.leb_le in H0, Hty.
+  unfold wf_cigar_op in Hop.
+  apply andb_true_iff in Hop. destruct Hop as [H0 H1]. apply Z.leb_le in H0.
   cbn [rec_end_loop]. unfold chk.
-  assert (Hin : inb sam_consumeRef (cig_type op) = true).
-  { unfold inb. apply andb_true_intro. split; [apply Z.leb_le|apply Z.ltb_lt].
-    - unfold cig_type. apply Z.land_nonneg. right. lia.
-    - change (zlen sam_consumeRef) with 11. lia. }
+  assert (Hin : inb sam_consumeRef (consumes_idx (cig_type op)) = true).
+  { unfold inb, consumes_idx. change sam_lastCigar with 10. change (zlen sam_consumeRef) with 11.
+    assert (0 <= cig_type op) by (unfold cig_type; apply Z.land_nonneg; right; lia).
+    destruct (10 <? cig_type op) eqn:E; [reflexivity|]. apply Z.ltb_ge in E.
+    apply andb_true_intro. split; [apply Z.leb_le|apply Z.ltb_lt]; lia. }
   rewrite Hin. apply IH. assumption.
 Qed.
 
@@ -170,11 +171,11 @@ Ltac mate_tac ref mref nrefs :=
       reflexivity ] ].
 
 (** * Reader.Read of a written block *)
-Theorem decode_body nrefs r omit sh sp tags bin :
-  valid_rec nrefs r = true -> build_aux (r_aux r) = Ok tags -> 0 <= sp ->
-  decode_record omit nrefs sh sp (body_of r tags bin) = Ok (omit_view omit (canon r), false).
+Theorem decode_body nrefs r omit sh tags bin :
+  valid_rec nrefs r = true -> build_aux (r_aux r) = Ok tags ->
+  decode_record omit nrefs sh (body_of r tags bin) = Ok (omit_view omit (canon r), false).
 Proof.
-  intros Hv Hb Hsp. pose proof (valid_rec_props _ _ Hv) as V.
+  intros Hv Hb. pose proof (valid_rec_props _ _ Hv) as V.
   destruct V as [Vnb Vnz Vnl Vref Vmref Vnrefs Vpos Vmpos Vtlen Vmapq Vflags Vcig Vncig Vlseq Vsb Vsl Vq Vaux Vsz].
   pose proof (zlen_qual_bytes nrefs r (valid_rec_props _ _ Hv)) as [Hql _].
   clear Hv.
@@ -198,18 +199,18 @@ Proof.
   cbn [odef]. rewrite cig_count, read_cigar_bytes by assumption.
   unfold omit_view. projs.
   destruct (bam_AllVariableLengthData <=? omit) eqn:O2.
-  - cbn [obind]. cbv beta iota. rewrite ref_check by assumption. cbn [obind].
+  - cbn [obind snd]. cbv beta iota. rewrite ref_check by assumption. cbn [obind].
     mate_tac ref mref nrefs.
   - replace (lseq <? 0) with false by (symmetry; apply Z.ltb_ge; lia).
     unfold b_bytes.
     rewrite b_unsafe_app by (rewrite half_up by lia; lia). cbv beta iota.
     rewrite b_unsafe_app by lia. cbv beta iota.
     destruct (bam_AuxTags <=? omit) eqn:O1.
-    + cbn [obind odef]. cbv beta iota. rewrite ref_check by assumption. cbn [obind].
+    + cbn [obind odef snd]. cbv beta iota. rewrite ref_check by assumption. cbn [obind].
       mate_tac ref mref nrefs.
     + unfold b_len. cbn [fst]. rewrite b_unsafe_all by reflexivity. cbv beta iota. cbn [odef].
-      rewrite (parse_build_aux aux (if sh then sp else 0) tags) by (try assumption; destruct sh; lia).
-      cbn [obind]. cbv beta iota. rewrite ref_check by assumption. cbn [obind].
+      rewrite (parse_build_aux aux tags) by assumption.
+      cbn [obind snd]. cbv beta iota. rewrite ref_check by assumption. cbn [obind].
       mate_tac ref mref nrefs.
 Qed.
 
@@ -245,15 +246,15 @@ Proof.
   assert (0 <= tags_len (r_aux r)) by (rewrite <- Hl; apply zlen_nonneg). lia.
 Qed.
 
-(** Round trip of one record, for every buffer decision and spare capacity. *)
-Theorem record_roundtrip nrefs r sh sp :
-  valid_rec nrefs r = true -> 0 <= sp ->
+(** Round trip of one record, for either buffer decision. *)
+Theorem record_roundtrip nrefs r sh :
+  valid_rec nrefs r = true ->
   exists body,
     encode_record r = Ok (le_put 4 (zlen body) ++ body) /\
     zlen body = block_size r /\
-    decode_record 0 nrefs sh sp body = Ok (canon r, false).
+    decode_record 0 nrefs sh body = Ok (canon r, false).
 Proof.
-  intros Hv Hsp. destruct (encode_valid nrefs r Hv) as [tags [bin [Hb [He Hl]]]].
+  intros Hv. destruct (encode_valid nrefs r Hv) as [tags [bin [Hb [He Hl]]]].
   exists (body_of r tags bin). split; [assumption|]. split; [assumption|].
-  rewrite (decode_body nrefs r 0 sh sp tags bin Hv Hb Hsp). reflexivity.
+  rewrite (decode_body nrefs r 0 sh tags bin Hv Hb). reflexivity.
 Qed.
